@@ -116,7 +116,13 @@ def scenario_for(seed, index, tier, _depth=0, _proto=None):
     user_plugin = has_plugin and plugins and rng.random() < 0.35
     seg = rng.random() < 0.5
     play = [['ka', 77], ['expect', 1], ['disconnect', '{"text":"fin"}']]
-    logins = [{'steps': steps, 'disc': disc, 'late': late}]
+    # a server may send its encryption request without waiting for the
+    # answers to earlier plugin requests (before a set-compression it must
+    # wait: an answer written before the client has seen that packet would
+    # be in the old framing - a race inherent in the protocol)
+    pipeline = bool(plugins) and rng.random() < 0.3
+    logins = [{'steps': steps, 'disc': disc, 'late': late,
+               'pipeline': pipeline}]
     if _depth == 0 and rng.random() < 0.3:
         # the same Connection object logs in a second time: nothing of the
         # first attempt (however it ended) may leak into the second
@@ -143,9 +149,12 @@ def scenario_for(seed, index, tier, _depth=0, _proto=None):
         'second_via': via,
         'user_plugin_listener': bool(user_plugin),
         'server': {'conns': [dict({'login': lg['steps'], 'play': play},
-                                  **({'close_mode': 'rst'}
-                                     if (lg.get('late') or {}).get('rst')
-                                     else {}))
+                                  **dict(
+                                      ({'close_mode': 'rst'}
+                                       if (lg.get('late') or {}).get('rst')
+                                       else {}),
+                                      pipeline_plugins=bool(
+                                          lg.get('pipeline'))))
                              for lg in logins]},
         'net': {'latency_us': rng.choice([50, 500]), 'segment': seg,
                 'short_read': seg, 'max_seg': rng.choice([1, 16, 300])},
